@@ -140,4 +140,24 @@ PROPS = {
                "cases = (ENOBUFS mask, shape, attachments) enumerated completely, plus generated masks over 64 attempts with generated lengths in the thorough tier; non-trivial = mask != 0 and the send still succeeded after at least one injected failure, or the send failed after at least one packet had been transmitted; distinct = distinct (params, canonical JSON)",
                exhaustive="all 2^10 masks x {<=2000 B, >2000 B one packet, 2, 3, 6 packets} x {no attachments, sender+region+receiver} x reported SO_SNDBUF in {8192, system default}"),
     ),
+    "C02": dict(
+        jobs=lambda tier: [dict(build="os", params={"sndbuf": "4096", "cases": "12000" if tier == "quick" else "400000"}, shards=8 if tier == "quick" else 16),
+                           dict(build="os", params={"cases": "300" if tier == "quick" else "6000"}, shards=2 if tier == "quick" else 4),
+                           dict(build="inproc", params={"sndbuf": "4096", "cases": "2000" if tier == "quick" else "40000"}, shards=2 if tier == "quick" else 4)],
+        meta=M("exploration",
+               "schedule-controlled property testing: packet-level interleavings of real sends enumerated/sampled through a schedule gate at the interposed sendmsg/send, plus free-running threads and forked processes; history oracle over logical-clock stamps",
+               "The order of all packet transmissions of 2..8 concurrent sender threads is a generated multiset permutation enforced at the libc boundary (4 KiB packets, so no real call blocks and the gate owns the order); the configurations 2 senders x 2 messages x 2 packets (70 orders), 2x2x3 (924), 3x1x3 (1680) - and 3x2x2 (34 650) in the thorough tier - are enumerated completely on the real send path, larger ones are sampled. Free-running cases add forked sender processes, jitter and four receiver behaviours (eager, delayed, try_recv polling, receiver set). Oracle: delivered multiset = sent-Ok multiset, each once; every body whole (length + checksum); return(a) < start(b) implies a delivered before b; receiver finishes after the last sender drop.",
+               "Replaces the abstract packet-level model named in the quantifier by enumeration on the real code (see DESIGN.md section 7); the largest listed bound (3x2x3 packets) is sampled, not exhausted. Kernel scheduling inside free-running cases is not controlled.",
+               "cases = (per-sender message shapes, packet schedule or jitter, sender processes, receiver mode, typed/bytes); non-trivial = >=2 senders and >=1 multi-packet message whose packets interleave (in the schedule / in overlapping send intervals) with another sender's; distinct = distinct (build, params, canonical JSON)",
+               exhaustive="every packet-transmission order of 2x2x2, 2x2x3 and 3x1x3 (senders x messages x packets) in both tiers, additionally 3x2x2 and further receiver modes in the thorough tier"),
+    ),
+    "C12": dict(
+        jobs=lambda tier: [dict(build="os", params={"sndbuf": "4096", "cases": "0" if tier == "quick" else "6000"}, shards=4 if tier == "quick" else 16)],
+        meta=M("fault_enumeration",
+               "crash-point enumeration: a forked sender process is SIGKILLed immediately before its k-th intercepted system call (socketpair/sendmsg/send/close) of the fatal send, for every k, per message shape, survivor and observer",
+               "For each message shape (1..3 packets quick, 1..6 thorough; with and without attachments), with and without a surviving sender handle in the parent, and for each observer (blocking recv, try_recv loop, receiver set, router route; also observers already waiting while the sender dies), the crash index k runs over every system-call boundary of the sending process from 0 to past the last call. The M messages sent before must arrive intact and first; the interrupted message is delivered intact or not as a message (at most one non-Disconnected error); with a survivor no closure is reported before the survivor's messages arrived; closure is reported afterwards; nothing hangs; attachments of an undelivered message are released.",
+               "The crash is a real SIGKILL of a real process at a libc-call boundary (not inside the kernel); 4 KiB packets via the SO_SNDBUF lie so that the send never blocks.",
+               "cases = (packets, attachments, earlier messages, survivor, observer, concurrent, crash index k) enumerated; thorough adds generated combinations; non-trivial = the process died strictly between the first packet and the last follow-up of a multi-packet message; distinct = distinct canonical JSON",
+               exhaustive="every crash index k = 0..packets+8 (covers every intercepted call of the send and 'after the last call') for the listed shapes x survivor x observer"),
+    ),
 }
